@@ -87,18 +87,19 @@ Definition oblock_ok (d : Z) (o : oblock) : bool :=
 (* The property, on the implementation's own output:
    - an input with a line without timestamp (or one the parser rejects) is rejected and the
      output directory holds no block;
-   - otherwise the run succeeds; every block is aligned and within one block duration, no two
-     blocks share a window; every stored sample is an input sample (same series, timestamp,
-     value bits); no (series, timestamp) is stored twice; and, when the input is ordered
-     (per series and window: increasing timestamps or exact repetitions), every input sample
-     is stored. *)
+   - otherwise: every block left in the output directory is aligned and within one block
+     duration, no two blocks share a window; every stored sample is an input sample (same
+     series, timestamp, value bits); no (series, timestamp) is stored twice; and, when the
+     input is ordered (per series and window: increasing timestamps or exact repetitions),
+     the run succeeds and every input sample is stored.  For an input that is not ordered the
+     run may also fail after the scan ("block creation: ... add sample"). *)
 Definition holds (c : case) : bool :=
   if well_formedb (c_input c) then
-    match c_obs c with
-    | ObsOk ol =>
-        let d := spec_duration (c_maxdur c) in
+    let d := spec_duration (c_maxdur c) in
+    let ins := samples_of (c_input c) in
+    let ord := orderedb d ins in
+    let check (ol : list oblock) (complete : bool) :=
         let all := flat_map ob_samples ol in
-        let ins := samples_of (c_input c) in
         let bk_all := buckets (c_nser c) all in
         let bk_ins := buckets (c_nser c) ins in
         forallb (oblock_ok d) ol
@@ -106,7 +107,10 @@ Definition holds (c : case) : bool :=
         && forallb (has_sample bk_ins) all           (* every stored sample is an input sample *)
         && forallb nodup_ts bk_all                   (* no (series, timestamp) stored twice ... *)
         && (Z.of_nat (length (concat bk_all)) =? Z.of_nat (length all))  (* ... (all stored series are input series) *)
-        && (if orderedb d ins then forallb (has_sample bk_all) ins else true)
+        && (if complete then forallb (has_sample bk_all) ins else true) in
+    match c_obs c with
+    | ObsOk ol => check ol ord
+    | ObsCreateErr ol => negb ord && check ol false
     | _ => false
     end
   else
